@@ -44,6 +44,7 @@ def run(ctx):
     rule_whole(ctx, F)
     rule_rev(ctx, F)
     rule_cmpr(ctx, F)
+    rule_prefix(ctx, F)
     rule_rollback(ctx, F)
     rule_trunc(ctx, F)
 
@@ -810,3 +811,30 @@ def rule_cmpr(ctx, F):
                "only (no decompression): the new parser refuses the record the new builder wrote, and the name must not be "
                "compressed on the wire in the first place" % (ty.split("::")[-1], ty.split("::")[-1], sorted(set(x.split("::")[-1] for x in plain))))
     ctx.ob(R, "new::rdata", "types with both a message builder and a message parser", n >= 8, "only %d found" % n, nontrivial=False)
+
+
+def rule_prefix(ctx, F):
+    """Siblings agree: each of the SizePrefixed parsers reads the size with `S::split_*` and hands the inner parser the
+    octets *behind* the size field."""
+    R = "C19.prefix"
+    ctx.floor(R, 4)
+    n = 0
+    for p, b in sorted(F.bodies.items()):
+        if not re.match(r"^<new::base::wire::size_prefixed::SizePrefixed<S, T> as .*>::(parse|split)_bytes(_by_ref|_by_mut)?$", p):
+            continue
+        def _is(tt, ty, meth):
+            fn = tt["fn"] or ""
+            return bool(re.search(r"::%s_bytes(_by_ref|_by_mut)?$" % meth, fn)) and (tt.get("targs") or [""])[0] == ty
+        inner = [(bb, tt) for bb, tt in b.calls() if _is(tt, "T", "parse")]
+        size = [bb for bb, tt in b.calls() if _is(tt, "S", "split")]
+        if not inner or not size:
+            continue
+        for bb, tt in inner:
+            n += 1
+            tm = deep_strip(b.term_of_operand(tt["args"][0]))
+            behind = any(s[0] == "call" and re.search(r"::split_bytes(_by_ref|_by_mut)?$", s[1] or "") and s[5] in size for s in walk(tm))
+            ctx.ob(R, b, "the inner parser gets the octets behind the size field", behind and tm != ("arg", 1),
+                   "%s checks the size prefix and then parses %s: the inner parser is given the size octets as well, so a "
+                   "correctly prefixed value is refused (its split_bytes sibling passes the data only)"
+                   % (p.split("::")[-1], "its whole input" if tm == ("arg", 1) else show(tm)[:60]), b.where(bb))
+    ctx.ob(R, "SizePrefixed", "parsers examined", n >= 4, "only %d SizePrefixed parse/split functions found" % n, nontrivial=False)
